@@ -116,8 +116,25 @@ def run_parse(job, tmp):
     return res
 
 
+def run_resolver(job, tmp):
+    import copy
+    from jasm.jasm_regex.macro_expander.macro_args_resolver import MacroArgsResolver
+    out = []
+    for (macro, call) in job["cases"]:
+        m = copy.deepcopy(macro)
+        before = copy.deepcopy(macro)
+        try:
+            r = MacroArgsResolver().resolve(macro=m, tree=copy.deepcopy(call))
+            out.append({"pattern": r.get("pattern")})
+        except Exception as e:
+            out.append({"error": f"{type(e).__name__}: {e}"})
+    return {"results": out}
+
+
 def run_one(job, tmp):
     k = job.get("kind")
+    if k == "resolver":
+        return run_resolver(job, tmp)
     if k == "mop":
         return run_mop(job, tmp)
     if k == "parse":
